@@ -33,8 +33,9 @@ META = {
     'level_note': 'Bounds: registries <= 2 custom registrations exhaustively (<= 6 randomly) over 10 classes; 28 Accept '
                   'classes exhaustively, random 1-4 range headers beyond; strings from a fixed pool (JSON/XML escaping is '
                   'not re-specified in TLA+: trusted decoders json.loads, xml.etree, urllib.parse). XML bodies are checked '
-                  'only for strings XML 1.0 can carry. A failure while rendering the body is modelled as the named '
-                  'deviation RenderPhaseFailureDropsBody (status/headers checked, empty body is a D-clause). A custom '
+                  'only for strings XML 1.0 can carry. An exception raised while the body is rendered is a raise site '
+                  'like any other (status, headers and body of the handler\'s response are P-clauses); only what is sent '
+                  'when rendering that response fails as well (SecondRenderFailureDropsBody) is a D-clause. A custom '
                   'handler raising a non-HTTP exception propagates (modelled, outside the promise).',
 }
 
@@ -42,9 +43,9 @@ from engine import pipeline_harness as H
 from engine.core import MachineryError, digest
 
 OWN = 'P4'
-C4_ACTIONS = ['AddHandler', 'Start', 'XReqCall', 'XRsrcCall', 'XResponder', 'XRespCall', 'RenderCall', 'XRenderFail', 'Route',
+C4_ACTIONS = ['AddHandler', 'Start', 'XReqCall', 'XRsrcCall', 'XResponder', 'XRespCall', 'RenderCall', 'XRenderFail', 'RenderBad', 'Route',
               'NotFound', 'HandleCall']
-ALL_BEHS = ['set', 'noop', 'http', 'status', 'other']
+ALL_BEHS = ['set', 'setbad', 'noop', 'http', 'status', 'other']
 
 
 def mt_text(m):
@@ -187,7 +188,7 @@ def run(ctx):
     r = ctx.tlc('MC_Pipeline', ctx.pick('MC_PipelineHQ.cfg', 'MC_PipelineH.cfg'), coverage=True, env=env,
                 workers=ctx.pick(8, 16), timeout=ctx.pick(280, 1500))
     ctx.extra['action_coverage'] = H.require_actions(r, C4_ACTIONS)
-    H.wrong_designs(ctx, env, ['mro_reversed', 'first_reg_wins', 'no_reset'])
+    H.wrong_designs(ctx, env, ['mro_reversed', 'first_reg_wins', 'no_reset', 'render_drops_body'])
     rt = ctx.tlc('MC_ErrorRender', ctx.pick('MC_ErrorRenderQ.cfg', 'MC_ErrorRender.cfg'), coverage=True, workers=2, timeout=300)
     H.require_actions(rt, ['XRenderError'])
     table = list({digest(c): c for c in rt.json}.values())
